@@ -24,7 +24,7 @@ class Incomplete(BerError):
 
 class Tlv:
     __slots__ = ("cls", "constructed", "number", "content", "children", "lenform", "hdr_len", "raw_len_octets",
-                 "tag_octets", "indefinite")
+                 "tag_octets", "indefinite", "raw")
 
     def __init__(
         self,
@@ -45,6 +45,7 @@ class Tlv:
         self.raw_len_octets = b""
         self.tag_octets = b""
         self.indefinite = False
+        self.raw: t.Optional[bytes] = None  # content octets exactly as read (set by read())
 
     def tag(self) -> t.Tuple[int, bool, int]:
         return (self.cls, self.constructed, self.number)
@@ -185,6 +186,7 @@ def read(data: bytes, pos: int = 0, depth: int = 0, max_depth: int = 200) -> t.T
     node.hdr_len = hl
     node.tag_octets = tag_oct
     node.raw_len_octets = len_oct
+    node.raw = content
     if constructed and depth < max_depth:
         kids: t.List[Tlv] = []
         p = 0
